@@ -1,7 +1,7 @@
 (** C09 correspondence: histories of real msg-server / keeper calls and real consensus end-blocks,
     with what the implementation answered at every step; [check] re-runs Sys/EndBlock on them. *)
 From Coq Require Import List ZArith Bool.
-From Paloma Require Import Base.Corr Base.Dec Sys.EndBlock.
+From Paloma Require Import Base.Corr Base.Dec Sys.EndBlock Sys.EndBlockAttest Sys.EndBlockMods.
 Import ListNotations.
 Open Scope Z_scope.
 
@@ -16,10 +16,29 @@ Inductive hop :=
 | HEstimate (v id value : Z) (ok : bool)
 | HEndBlock (outcome : Z) (o : obs).                 (* 0 completed, 1 error returned, 2 panic *)
 
+(** second round: histories of the attestation / pruning steps (Sys/EndBlockAttest.v) *)
+Inductive xop :=
+| XSnapshot (snap : list (Z * Z))
+| XPut (id rank : Z) (kind : akind) (height : Z) (pad : bool)
+| XElect (id : Z)
+| XEvidence (val id : Z) (p : proof) (ok : bool)          (* through the msg server: accepted? *)
+| XStored (val id : Z) (p : proof)                         (* written through the queue object, as code before the submission check did *)
+| XPublicData (id : Z) (ok : bool)
+| XErrorData (id : Z) (ok : bool)
+| XEndBlock (height outcome : Z) (ids jailed : list Z).    (* outcome 0 completed / 1 error / 2 panic; queue ids left; validators found jailed *)
+
+(** the skyway end-blocker: claims voted by every validator, then the real EndBlocker *)
+Inductive yop :=
+| YClaim (chain nonce : Z) (c : claim)
+| YEndBlock (outcome : Z) (cursors : list Z) (effects : Z). (* outcome 0 = nothing escaped; per-chain cursor; applied deposits *)
+
 Inductive case :=
 | CHist (ops : list hop)
 | CMulCeil (d n : Z) (res : option Z)                (* mulCeilUint64: Some r or error *)
-| CBlocks (outcomes : list Z).                       (* every module's real Begin/EndBlock at every height class: 0 = completed *)
+| CBlocks (outcomes : list Z)                        (* every module's real Begin/EndBlock at every height class: 0 = completed *)
+| CAttest (ops : list xop)
+| CSkyway (chains : Z) (ops : list yop)
+| CWorthy (cur new : list Z) (tcur tnew : Z) (res : Z). (* isNewSnapshotWorthy on equal-order snapshots: 0 not worthy / 1 worthy / 2 panic *)
 
 Definition fees_eqb (a b : option (Z * Z * Z)) : bool :=
   option_eqb (fun x y => let '(a1, a2, a3) := x in let '(b1, b2, b3) := y in (a1 =? b1) && (a2 =? b2) && (a3 =? b3)) a b.
@@ -78,6 +97,48 @@ Fixpoint puts_need_eligible (ops : list hop) (s : state) : bool :=
     end
   end.
 
+Definition zlist_eqb (a b : list Z) : bool := list_eqb Z.eqb a b.
+Definition subset (a b : list Z) : bool := forallb (fun x => existsb (Z.eqb x) b) a.
+
+Fixpoint xreplay (ops : list xop) (s : astate) : bool :=
+  match ops with
+  | [] => true
+  | o :: r =>
+    match o with
+    | XSnapshot snap => xreplay r (aapply (ASnapshot snap) s)
+    | XPut id rank kind h pad =>
+      aaccept current (APut id rank kind h pad) s && xreplay r (aapply (APut id rank kind h pad) s)
+    | XElect id => xreplay r (aapply (AElect id) s)
+    | XEvidence val id p ok =>
+      Bool.eqb (aaccept current (AEvidence val id p) s) ok && xreplay r (if ok then aapply (AEvidence val id p) s else s)
+    | XStored val id p => has_msg id s && xreplay r (aapply (AEvidence val id p) s)
+    | XPublicData id ok =>
+      Bool.eqb (aaccept current (APublicData id) s) ok && xreplay r (if ok then aapply (APublicData id) s else s)
+    | XErrorData id ok =>
+      Bool.eqb (aaccept current (AErrorData id) s) ok && xreplay r (if ok then aapply (AErrorData id) s else s)
+    | XEndBlock h outcome ids jailed =>
+      match aend_block current h s with
+      | AOk s' =>
+        (outcome =? 0) && zlist_eqb (queue_ids s') ids &&
+        (* Jail may refuse (already jailed, last validator, share protection): found jailed => called *)
+        subset jailed (as_jail_calls s') && xreplay r s'
+      | APanic _ => (outcome =? 2)
+      end
+    end
+  end.
+
+Fixpoint yreplay (ops : list yop) (s : sky) : bool :=
+  match ops with
+  | [] => true
+  | o :: r =>
+    match o with
+    | YClaim ch n c => sky_claim_ok (Z.to_nat ch) n s && yreplay r (sky_add_claim (Z.to_nat ch) n c s)
+    | YEndBlock outcome cursors effects =>
+      let s' := sky_end_block s in
+      (outcome =? 0) && zlist_eqb (k_cursor s') cursors && (k_effects s' =? effects) && yreplay r s'
+    end
+  end.
+
 Definition check (c : case) : bool :=
   match c with
   | CHist ops => replay ops init && puts_need_eligible ops init
@@ -88,4 +149,12 @@ Definition check (c : case) : bool :=
     | _, _ => false
     end
   | CBlocks outcomes => forallb (fun x => x =? 0) outcomes
+  | CAttest ops => xreplay ops ainit
+  | CSkyway chains ops => yreplay ops (sky_init (Z.to_nat chains))
+  | CWorthy cur new tcur tnew res =>
+    match worthy_powers cur new tcur tnew with
+    | WOk false => res =? 0
+    | WOk true => res =? 1
+    | WDivByZero => res =? 2
+    end
   end.
